@@ -319,6 +319,22 @@ def Package.run (gate : TypeInfo → RustTy → RotoTy → Res) : Package → Li
   | _, [] => []
   | pk, q :: qs => (pk.get gate q).2 :: Package.run gate (pk.get gate q).1 qs
 
+/-! ## Histories of requests in one process
+
+  Besides the package, `get_function` consults one piece of state that outlives
+  the package: the process-wide `TypeRegistry` (`Value::resolve` stores the
+  description of every Rust type it meets, `check_roto_type` looks components
+  up by `TypeId`). The model's `RustTy` *is* the description tree, i.e. the
+  registry's entry for a type is taken to be the structure of that type,
+  whatever the process resolved before (tied to the `resolve` bodies by the
+  translator target `gatereg`, `RotoV.C04Reg.registry_describes_the_type`). So
+  a process is a list of (package, request) and the registry does not appear. -/
+
+/-- the answers to the requests of one process, each made on some package, in order -/
+def processRun (gate : TypeInfo → RustTy → RotoTy → Res) : List (Package × Request) → List GetRes
+  | [] => []
+  | (pk, q) :: rest => (pk.get gate q).2 :: processRun gate rest
+
 /-! ## `force_filtermap_types` -/
 
 /-- What the checker does to the declared signature of a filtermap after type
@@ -340,6 +356,60 @@ def filtermapSignature (verdictName : Ident) (params : List RotoTy) (a r : Optio
   match forceFiltermap (.named verdictName [side a 0, side r 1]) with
   | some ret => some ⟨params, ret⟩
   | none => none
+
+/-! ### `force_filtermap_types` as read off the source
+
+  The translator (`Gen.GateSig.forceArms`) lists the statements
+  `if let Type::P(x) = self.resolve_type(side) { self.unify(&Type::P(x), &Type::F(), …) }`
+  of the function as (side, P, F). Interpreted: -/
+
+/-- does a resolved type match the pattern `Type::P(..)`? -/
+def matchesPat (p : Ident) : RotoTy → Bool
+  | .var _ => p == id% "Var"
+  | .intVar => p == id% "IntVar"
+  | .floatVar => p == id% "FloatVar"
+  | _ => false
+
+/-- `Type::unit()`, `Type::i32()`, … by constructor-function name -/
+def forcedTy (f : Ident) : RotoTy :=
+  if f == id% "unit" then .unit else .named f []
+
+/-- what the listed statements do to the side `side` whose resolved type is
+    `t` (a unification of a variable with a closed type makes it that type;
+    at most one statement can apply, the first that matches) -/
+def forceSideBy : List (Ident × Ident × Ident) → Ident → RotoTy → RotoTy
+  | [], _, t => t
+  | (s, p, f) :: rest, side, t =>
+    if s == side && matchesPat p t then forcedTy f else forceSideBy rest side t
+
+/-! ### What a signature is compiled at
+
+  `TypeInfo::convert` (the types the code of a function is generated for) maps
+  a literal type variable that nothing constrained to `i32` / `f64` wherever it
+  occurs, also below type constructors: `Option[{integer}]` is compiled as
+  `Option[i32]`. -/
+mutual
+def deepDefault (tb : Tables) : RotoTy → RotoTy
+  | .intVar => .named tb.intDefault []
+  | .floatVar => .named tb.floatDefault []
+  | .name n args => .name n (deepDefaultList tb args)
+  | t => t
+def deepDefaultList (tb : Tables) : List RotoTy → List RotoTy
+  | [] => []
+  | a :: as => deepDefault tb a :: deepDefaultList tb as
+end
+
+/- does a literal type variable occur in the type (at any depth)? -/
+mutual
+def hasLiteral : RotoTy → Bool
+  | .intVar => true
+  | .floatVar => true
+  | .name _ args => hasLiteralList args
+  | _ => false
+def hasLiteralList : List RotoTy → Bool
+  | [] => false
+  | a :: as => hasLiteral a || hasLiteralList as
+end
 
 /-- the fixed signature of `test name { … }` (`typechecker/function.rs`) -/
 def testSignature (verdictName : Ident) : Signature :=
